@@ -1,9 +1,14 @@
 import SiaProofs.Props.C10Ledger
 import SiaProofs.Lemmas.LedgerC10Total
+import SiaProofs.Lemmas.LedgerC10Weak
 import SiaProofs.Lemmas.LedgerC01PoolSolv
 import SiaProofs.Props.C01
 /-!
-# C10 on the ledger model, whole blocks: `validateBlock` never panics on a solvent ledger
+# C10 on the ledger model, whole blocks: `validateBlock` never panics
+
+Two versions: from `Solvent` with the ephemeral-output fix active (`c10_validate_no_panic`), and — after the
+`validateTaxPool` / `validateV2TaxPool` fix — from the element-wise `WeakInv` with no window hypothesis
+(`c10_validate_no_panic_legacy`), an invariant kept by *every* accepted block (`c10_weakinv_preserved`).
 
 Built on the C01 mid-state invariant (`Lemmas/LedgerC01*.lean`) and on the check-by-check
 no-panic lemmas of `C10Ledger.lean`.
@@ -519,7 +524,9 @@ ledger with the ephemeral-output fix active.
 Hypotheses on the block: `FreshIds` — hash-collision freedom, *necessary in the model*
 (`c10_collision_panics_model`); `SfNoWrap`, `IdListsCover` — the two modelling-artefact hypotheses of C01
 (siafund output sums below 2^64: block weight; id lists long enough: `ValidOutputID(i)` exists for every `i`).
-The window hypothesis is necessary too: `c10_legacy_window_panic`.
+Neither `Solvent` nor the window hypothesis is necessary any more (they were before the `validateTaxPool` fix):
+`c10_validate_no_panic_legacy` below proves the same conclusion from the element-wise `WeakInv` alone; this theorem is
+kept for the solvency bookkeeping (`c10_solvent_preserved`).
 Why no arithmetic panics: sums over genuine parents are bounded by the potential, which is at most `2·V L`;
 claims need `claimStart ≤ pool` (`CsOk`) and at most 10000 siafunds; the tax added to the pool is funded by the
 transaction's *mature* inputs and by rollovers out of base contracts, and the potential exceeds `V L` only by
@@ -659,5 +666,408 @@ theorem c10_legacy_window_tax_overflow_rejected :
     ⟨by decide, ?_⟩, by constructor <;> decide, ⟨by decide, by decide⟩, by decide, by rfl⟩
   intro p hp k
   cases k <;> revert p <;> decide
+
+-- ================================================================= the weak invariant: no solvency, no window hypothesis
+
+/-- What every ledger reachable from a `WeakInv` ledger satisfies **by construction**, in and out of the legacy
+window: ids of live elements are pairwise distinct across kinds, v1 contracts are balanced, the parameters are sane,
+and *element-wise* bounds — every live siafund output has a claim start at most the pool and a value of at most
+10000, every live contract's payout sum fits in a `Currency`, and so does the pool. No bound on any sum over the
+ledger (`V L`, `SFtot L`), no `missedHost ≤ host` (both can be broken below `EphemeralOutputHeight`). -/
+def WeakInv (L : Ledger) : Prop :=
+  (baseIds L .sc ++ baseIds L .sf ++ baseIds L .fc1 ++ baseIds L .fc2).Nodup ∧
+  (∀ e ∈ L.fc1, sumVals e.fc.valid = sumVals e.fc.missed) ∧
+  ParamsOk L.P ∧
+  (∀ e ∈ L.sf, e.claimStart ≤ L.pool ∧ e.value ≤ 10000) ∧
+  (∀ e ∈ L.fc1, sumVals e.fc.valid < curLimit) ∧
+  (∀ e ∈ L.fc2, e.fc.renter.value + e.fc.host.value < curLimit) ∧
+  L.pool < curLimit
+
+instance (L : Ledger) : Decidable (WeakInv L) := by unfold WeakInv ParamsOk; exact inferInstance
+
+theorem WeakInv.numL {L : Ledger} (h : WeakInv L) : NumL L :=
+  ⟨h.2.2.2.1, fun e he => ⟨h.2.2.2.2.1 e he, by rw [← h.2.1 e he]; exact h.2.2.2.2.1 e he⟩,
+    fun e he => h.2.2.2.2.2.1 e he, h.2.2.2.2.2.2⟩
+
+theorem WeakInv.ctx {L : Ledger} {b : Block} (h : WeakInv L) (hf : FreshIds L b) : Ctx (Tb L b) L :=
+  ctx_of_nodup h.1 h.2.1 hf
+
+/-- a well-formed solvent ledger satisfies the weak invariant -/
+theorem weakInv_of_wf_solvent {L : Ledger} (hw : WF L) (hs : Solvent L) : WeakInv L := by
+  obtain ⟨hV, hS, hcs, _⟩ := hs
+  refine ⟨hw.nodup, hw.fc1_bal, hw.params, fun e he => ⟨hcs e he, ?_⟩, fun e he => ?_, fun e he => ?_, ?_⟩
+  · have := le_sum_map_of_mem L.sf (·.value) he
+    unfold SFtot at hS; omega
+  · have := fc1_val_le_V he; unfold Fc1.val at this; cur_omega
+  · have := fc2_val_le_V he; unfold Fc2.val at this; cur_omega
+  · unfold V at hV; cur_omega
+
+-- ----------------------------------------------------------------- what the pre-checks give
+
+theorem taxPool1_ok {ms : Mid} {t : Txn1} (h : validateTaxPool ms t = .ok ()) : ms.pool + t.taxes ms.base < curLimit := by
+  unfold validateTaxPool at h
+  split at h
+  · exact absurd h (reject_ne_ok _ _)
+  · rename_i hn
+    cases hs : sumChecked (ms.pool :: t.fcs.map (fun f => fileContractTax ms.base f.2.payout)) with
+    | none => exact absurd (by rw [hs]; rfl) hn
+    | some v =>
+      have := sumChecked_some hs
+      rw [List.sum_cons] at this
+      unfold Txn1.taxes; exact this
+
+theorem filterMap_getD_sum {α : Type} (l : List α) (f : α → Option Nat) :
+    (l.filterMap f).sum = (l.map (fun r => (f r).getD 0)).sum := by
+  induction l with
+  | nil => rfl
+  | cons r l ih =>
+    rw [List.filterMap_cons, List.map_cons, List.sum_cons]
+    cases hf : f r with
+    | none => simp only [Option.getD_none, Nat.zero_add]; exact ih
+    | some v => simp only [Option.getD_some, List.sum_cons]; rw [ih]
+
+theorem taxPool2_ok {ms : Mid} {t : Txn2} (h : validateV2TaxPool ms t = .ok ()) : ms.pool + t.taxes < curLimit := by
+  unfold validateV2TaxPool at h
+  simp only [] at h
+  split at h
+  · exact absurd h (reject_ne_ok _ _)
+  · rename_i hn
+    generalize hs : sumChecked _ = o at hn
+    cases o with
+    | none => exact absurd rfl hn
+    | some v =>
+      have := sumChecked_some hs
+      rw [List.sum_cons, List.sum_append] at this
+      refine Nat.lt_of_le_of_lt ?_ this
+      unfold Txn2.taxes
+      apply Nat.add_le_add_left
+      apply Nat.add_le_add
+      · apply Nat.le_of_eq; congr 1
+      · rw [filterMap_getD_sum]
+        apply Nat.le_of_eq; congr 1
+        apply List.map_congr_left
+        intro r _
+        unfold resTax
+        cases r.res <;> rfl
+
+theorem v1_sfouts_le {t : Txn1} (hov : validateCurrencyOverflow t = .ok ()) : ∀ x ∈ t.sfOuts, x.2.1 ≤ 10000 := by
+  unfold validateCurrencyOverflow at hov
+  split at hov
+  · exact absurd hov (reject_ne_ok _ _)
+  · rename_i h
+    intro x hx
+    apply Decidable.byContradiction; intro hgt
+    apply h; right
+    rw [List.any_eq_true]
+    exact ⟨x, hx, by obtain ⟨a, v, c⟩ := x; simp only [decide_eq_true_eq]; simp only [] at hgt; omega⟩
+
+theorem v2_sfouts_le {t : Txn2} (hov : validateV2CurrencyOverflow t = .ok ()) : ∀ x ∈ t.sfOuts, x.2.1 ≤ 10000 := by
+  unfold validateV2CurrencyOverflow at hov
+  simp only [] at hov
+  split at hov
+  · exact absurd hov (reject_ne_ok _ _)
+  · split at hov
+    · exact absurd hov (reject_ne_ok _ _)
+    · rename_i h
+      intro x hx
+      apply Decidable.byContradiction; intro hgt
+      apply h; right
+      rw [List.any_eq_true]
+      exact ⟨x, hx, by obtain ⟨a, v, c⟩ := x; simp only [decide_eq_true_eq]; simp only [] at hgt; omega⟩
+
+theorem v2_rev_bounds {t : Txn2} (hov : validateV2CurrencyOverflow t = .ok ()) : ∀ r ∈ t.revs, r.rev.val < curLimit := by
+  obtain ⟨hsome, _⟩ := validateV2CurrencyOverflow_ok hov
+  intro r hr
+  have hm : v2Contract r.rev ∈ v2Parts t := by
+    unfold v2Parts
+    simp only [List.mem_append, List.mem_map]
+    exact Or.inl (Or.inl (Or.inr ⟨r, hr, rfl⟩))
+  have := hsome _ hm
+  unfold v2Contract at this
+  split at this
+  · unfold Fc2.val; assumption
+  · exact absurd rfl this
+
+-- ----------------------------------------------------------------- folds over the transactions of a block
+
+theorem v1_fold_weak {T} (L : Ledger) (hN : NumL L) (pid : Id) (mw : Nat) (l : List Txn1) :
+    ∀ (ms : Mid) (R : List (Kind × Id)), Ctx T ms.base → ms.base = L → Inv T ms → Num ms →
+    (∀ t ∈ l, SuppOk L t.supp) → Fresh T ms (l.flatMap Txn1.created ++ R) → checkProofIds pid mw ms l = true →
+    NoPanic (l.foldlM (vb1Step pid mw) ms) ∧
+    ∀ ms', l.foldlM (vb1Step pid mw) ms = .ok ms' → Inv T ms' ∧ Num ms' ∧ Fresh T ms' R ∧ ms'.base = L := by
+  induction l with
+  | nil =>
+    intro ms R _ hb hI hn _ hF _
+    refine ⟨by simp [pure, Except.pure], fun ms' h => ?_⟩
+    cases h; exact ⟨hI, hn, hF, hb⟩
+  | cons t l ih =>
+    intro ms R hc hb hI hn hsupp hF hchk
+    have hsu : SuppOk ms.base t.supp := by rw [hb]; exact hsupp t List.mem_cons_self
+    have hNb : NumL ms.base := by rw [hb]; exact hN
+    have hG : GenuineBound1 ms t.supp := fun id p _ hp => fc1P_of_element hn hNb hsu hp
+    simp only [List.flatMap_cons, List.append_assoc] at hF
+    have hchk' := hchk
+    unfold checkProofIds at hchk'
+    rw [Bool.and_eq_true] at hchk'
+    have hlen : ∀ sp ∈ t.proofs, ∀ e, ms.fc1Element t.supp sp.parent = some e → e.fc.valid.length ≤ sp.outIds.length := by
+      intro sp hsp e he
+      have := List.all_eq_true.mp hchk'.1 sp hsp
+      rw [he] at this; simpa using this
+    have hstep : ∀ hv : validateTransaction ms t pid mw = .ok (), ∃ ms1, applyTransaction ms t = .ok ms1 ∧
+        Inv T ms1 ∧ Num ms1 ∧ Fresh T ms1 (l.flatMap Txn1.created ++ R) ∧ ms1.base = L := by
+      intro hv
+      obtain ⟨_, ⟨hov, htp⟩, _⟩ := (validateTransaction_ok_iff ms t pid mw).1 hv
+      obtain ⟨_, hv2, _, _⟩ := validateTransaction_ok hv
+      obtain ⟨hsf, _⟩ := validateSiafunds1_ok hv2
+      have hclaim : ∀ sfi ∈ t.sfIns, ∀ e, ms.sfElement t.supp sfi.parent = some e →
+          e.claimStart ≤ ms.pool ∧ e.value ≤ 10000 := by
+        intro sfi hs e he
+        unfold Mid.sfElement at he
+        cases hd : ms.sfDiff? sfi.parent with
+        | some d =>
+          rw [hd] at he; simp only [] at he; cases he
+          obtain ⟨hm, hid⟩ := sfDiff?_mem hd
+          have hsp : d.spent = false := by
+            cases hspt : d.spent with
+            | false => rfl
+            | true =>
+              have := isSpent_of_mem ((hI.sf d hm).2.2 hspt)
+              rw [hid, (hsf sfi hs).1] at this; cases this
+          exact hn.sf d hm hsp
+        | none =>
+          rw [hd] at he; simp only [] at he
+          obtain ⟨a, b⟩ := hNb.sf e (hsu.sf e (List.mem_of_find?_eq_some he))
+          exact ⟨Nat.le_trans a hn.lo, b⟩
+      obtain ⟨ms1, ha, hI1, hF1, hb1, _⟩ := v1txn_weak hc hI hsu hF hlen hclaim (taxPool1_ok htp) hv
+      obtain ⟨hfcb, hrevb⟩ := v1_overflow_bounds hov
+      have hn1 := v1txn_num hn hNb hsu (v1_sfouts_le hov)
+        (fun x hx => by have := hfcb x hx; constructor <;> cur_omega)
+        (fun r hr => by have := hrevb r hr; constructor <;> cur_omega) ha
+      exact ⟨ms1, ha, hI1, hn1, hF1, hb1.trans hb⟩
+    have hnext : ∀ ms1, vb1Step pid mw ms t = .ok ms1 →
+        Inv T ms1 ∧ Num ms1 ∧ Fresh T ms1 (l.flatMap Txn1.created ++ R) ∧ ms1.base = L ∧
+        checkProofIds pid mw ms1 l = true := by
+      intro ms1 h1
+      obtain ⟨_, hv, ha⟩ := bind_ok_iff.1 h1
+      obtain ⟨ms1', ha', r⟩ := hstep hv
+      rw [ha] at ha'; cases ha'
+      have hst : stepV1 pid mw ms t = .ok ms1 := by rw [stepV1_eq_vb1Step]; exact h1
+      rw [hst] at hchk'; simp only [] at hchk'
+      exact ⟨r.1, r.2.1, r.2.2.1, r.2.2.2, hchk'.2⟩
+    rw [List.foldlM_cons]
+    constructor
+    · refine bind_noPanic ?_ (fun ms1 h1 => ?_)
+      · unfold vb1Step
+        refine bind_noPanic (v1_transaction_noPanic ms t pid mw hG) (fun _ hv => ?_)
+        obtain ⟨ms1, ha, _⟩ := hstep hv
+        rw [ha]; intro m hm; cases hm
+      · obtain ⟨a, b, c, d, e⟩ := hnext ms1 h1
+        exact (ih ms1 R (by rw [d]; rw [← hb]; exact hc) d a b (fun t' ht' => hsupp t' (List.mem_cons_of_mem _ ht')) c e).1
+    · intro ms' h
+      obtain ⟨ms1, h1, h2⟩ := bind_ok_iff.1 h
+      obtain ⟨a, b, c, d, e⟩ := hnext ms1 h1
+      exact (ih ms1 R (by rw [d]; rw [← hb]; exact hc) d a b (fun t' ht' => hsupp t' (List.mem_cons_of_mem _ ht')) c e).2 ms' h2
+
+theorem genuineBound2_of_num {ms : Mid} (hn : Num ms) (hN : NumL ms.base) : GenuineBound2 ms := by
+  intro e _ hb
+  have he := hN.fc2 e (mem_base_fc2 hb).1
+  unfold Fc2.val at he
+  refine ⟨?_, he⟩
+  unfold Mid.curFc2
+  cases hlk : ms.lookup e.id with
+  | none => exact he
+  | some i =>
+    simp only []
+    rcases getD_mem_or_default_w ms.v2fces i with hm | ⟨_, hd⟩
+    · cases hr : (ms.v2fces.getD i default).revision with
+      | none => exact he
+      | some r => have := (hn.fc2 _ hm).2 r hr; unfold Fc2.val at this; exact this
+    · rw [hd]; exact he
+
+theorem v2_fold_weak {T} (L : Ledger) (hN : NumL L) (mw : Nat) (l : List Txn2) :
+    ∀ (ms : Mid) (R : List (Kind × Id)), Ctx T ms.base → ms.base = L → WI T ms (l.flatMap Txn2.created ++ R) →
+    NoPanic (l.foldlM (vb2Step mw) ms) ∧
+    ∀ ms', l.foldlM (vb2Step mw) ms = .ok ms' → WI T ms' R ∧ ms'.base = L := by
+  induction l with
+  | nil =>
+    intro ms R _ hb hw
+    refine ⟨by simp [pure, Except.pure], fun ms' h => ?_⟩
+    cases h; exact ⟨hw, hb⟩
+  | cons t l ih =>
+    intro ms R hc hb hw
+    have hNb : NumL ms.base := by rw [hb]; exact hN
+    have hG := genuineBound2_of_num hw.num hNb
+    simp only [List.flatMap_cons, List.append_assoc] at hw
+    have hstep : ∀ hv : validateV2Transaction ms t mw = .ok (), ∃ ms1, applyV2Transaction ms t = .ok ms1 ∧
+        WI T ms1 (l.flatMap Txn2.created ++ R) ∧ ms1.base = L := by
+      intro hv
+      obtain ⟨_, ⟨hov, htp⟩, _⟩ := (validateV2Transaction_ok_iff ms t mw).1 hv
+      obtain ⟨hfcv, hrnv⟩ := v2_created_bounds hov
+      obtain ⟨ms1, ha, w1, x1, _⟩ := v2txn_weak hc hNb hw hfcv hrnv (v2_rev_bounds hov) (v2_sfouts_le hov) (taxPool2_ok htp) hv
+      exact ⟨ms1, ha, w1, x1.1.trans hb⟩
+    rw [List.foldlM_cons]
+    constructor
+    · refine bind_noPanic ?_ (fun ms1 h1 => ?_)
+      · unfold vb2Step
+        refine bind_noPanic (v2_transaction_noPanic ms t mw hG) (fun _ hv => ?_)
+        obtain ⟨ms1, ha, _⟩ := hstep hv
+        rw [ha]; intro m hm; cases hm
+      · obtain ⟨_, hv, ha⟩ := bind_ok_iff.1 h1
+        obtain ⟨ms1', ha', w1, b1⟩ := hstep hv
+        rw [ha] at ha'; cases ha'
+        exact (ih ms1 R (by rw [b1]; rw [← hb]; exact hc) b1 w1).1
+    · intro ms' h
+      obtain ⟨ms1, h1, h2⟩ := bind_ok_iff.1 h
+      obtain ⟨_, hv, ha⟩ := bind_ok_iff.1 h1
+      obtain ⟨ms1', ha', w1, b1⟩ := hstep hv
+      rw [ha] at ha'; cases ha'
+      exact (ih ms1 R (by rw [b1]; rw [← hb]; exact hc) b1 w1).2 ms' h2
+
+-- ----------------------------------------------------------------- whole blocks
+
+/-- **No window hypothesis, no solvency.** `validateBlock` never panics on a ledger that satisfies the weak
+invariant, whether or not the ephemeral-output fix is active. The remaining hypotheses on the block are
+`FreshIds` (hash-collision freedom, necessary in the model: `c10_collision_panics_model`) and the first half of
+`IdListsCover` (a modelling artefact). `SfNoWrap` is not needed.
+Why the legacy window adds no panic once `validateTaxPool` / `validateV2TaxPool` are in place: below
+`EphemeralOutputHeight` a forged ephemeral parent can only overwrite a siacoin / siafund diff with a *spent* record,
+and no later step reads a spent record; the checked additions reject inflated input sums; a forged siafund parent's
+claim is checked to be computable by `validateEphemeralSf`; contract diffs are never touched by a forged parent, so
+`resolveFc2` finds an uncreated diff; and every arithmetic step of `apply` is bounded by a pre-check of the same
+transaction or by an element-wise bound of `WeakInv`. -/
+theorem c10_validate_no_panic_legacy {L : Ledger} (hw : WeakInv L) (b : Block) (pid : Id)
+    (hf : FreshIds L b) (hcov : IdListsCover L b pid) :
+    ∀ msg, validateBlock L b pid ≠ .error (.panic msg) := by
+  show NoPanic (validateBlock L b pid)
+  rw [validateBlock_eq]
+  refine bind_noPanic (validateOrphan_noPanic L b) (fun _ _ => ?_)
+  refine bind_noPanic (validateSupplement_noPanic L b) (fun u hsu => ?_)
+  cases u
+  obtain ⟨hsupp, _, _⟩ := validateSupplement_ok hsu
+  split
+  · simp
+  have hc : Ctx (Tb L b) (newMid L).base := hw.ctx hf
+  have hF0 := fresh_newMid hf
+  unfold Block.created at hF0
+  obtain ⟨np1, st1⟩ := v1_fold_weak (T := Tb L b) L hw.numL pid b.maxWeight b.txns1 (newMid L) _ hc rfl (inv_newMid L)
+    (num_newMid hw.numL) hsupp hF0 hcov.1
+  refine bind_noPanic np1 (fun s hs1 => ?_)
+  obtain ⟨hI1, hn1, hF1, hb1⟩ := st1 s hs1
+  have hc1 : Ctx (Tb L b) s.base := by rw [hb1]; exact hc
+  exact (v2_fold_weak (T := Tb L b) L hw.numL b.maxWeight b.v2txns s _ hc1 hb1 ⟨li_of_inv hc1 hI1, hF1, hn1⟩).1
+
+/-- **Every accepted block keeps the weak invariant**, legacy-window blocks included: all ledgers reachable from a
+`WeakInv` ledger (for instance from genesis) through accepted blocks satisfy it, so `validateBlock` never panics
+on any of them (`c10_validate_no_panic_legacy`). -/
+theorem c10_weakinv_preserved {L : Ledger} {b : Block} {pid : Id} {msv : Mid} (hw : WeakInv L)
+    (hf : FreshIds L b) (hcov : IdListsCover L b pid) (hv : validateBlock L b pid = .ok msv) :
+    ∀ L' ms, applyBlock L b = .ok (L', ms) → WeakInv L' := by
+  obtain ⟨hvo, hvs, ms1, hl1, hl2⟩ := validateBlock_ok hv
+  obtain ⟨hsupp, hexp, hcond⟩ := validateSupplement_ok hvs
+  have hc : Ctx (Tb L b) L := hw.ctx hf
+  have hF0 := fresh_newMid hf
+  unfold Block.created at hF0
+  obtain ⟨_, st1⟩ := v1_fold_weak (T := Tb L b) L hw.numL pid b.maxWeight b.txns1 (newMid L) _ hc rfl (inv_newMid L)
+    (num_newMid hw.numL) hsupp hF0 hcov.1
+  obtain ⟨hI1, hn1, hF1, hb1⟩ := st1 ms1 (by rw [← stepV1_eq_vb1Step]; exact hl1)
+  have hc1 : Ctx (Tb L b) ms1.base := by rw [hb1]; exact hc
+  obtain ⟨_, st2⟩ := v2_fold_weak (T := Tb L b) L hw.numL b.maxWeight b.v2txns ms1 _ hc1 hb1 ⟨li_of_inv hc1 hI1, hF1, hn1⟩
+  obtain ⟨w2, hb2⟩ := st2 msv (by rw [← stepV2_eq_vb2Step]; exact hl2)
+  obtain ⟨sub, hsub⟩ := foundationSubsidy_ok L hw.2.2.1
+  obtain ⟨ms3, ms5, a3, hb3, a5, w5, hb5⟩ := weak_block_tail hc hw.numL hb2 w2 hexp sub
+  have hm : midApplyBlock (newMid L) b = .ok ms5 := by
+    rw [midApplyBlock_eq_c1]
+    have hcond' : ¬ ((newMid L).base.child ≥ (newMid L).base.P.v2Require ∧ (b.txns1.length ≠ 0 ∨ b.expiring.length ≠ 0)) := hcond
+    rw [if_neg hcond', bind_eq_ok]
+    refine ⟨ms1, fold_stepV1_apply _ _ _ _ _ hl1, ?_⟩
+    rw [bind_eq_ok]; refine ⟨msv, fold_stepV2_apply _ _ _ _ hl2, ?_⟩
+    rw [bind_eq_ok]; refine ⟨ms3, a3, ?_⟩
+    rw [bind_eq_ok]; exact ⟨sub, by rw [hb3]; exact hsub, a5⟩
+  intro L' ms' h
+  unfold applyBlock at h; rw [hm] at h; cases h
+  have hc5 : Ctx (Tb L b) ms5.base := by rw [hb5]; exact hc
+  obtain ⟨s1, s2⟩ := weak_commit_struct hc5 w5.li b.blockId
+  have hN5 := weak_commit_num w5.num (by rw [hb5]; exact hw.numL) b.blockId
+  refine ⟨s1, s2, ?_, hN5.sf, fun e he => (hN5.fc1 e he).1, fun e he => hN5.fc2 e he, hN5.pool⟩
+  show ParamsOk ms5.base.P
+  rw [hb5]; exact hw.2.2.1
+
+/-- corollary: along any chain of accepted blocks starting from a `WeakInv` ledger the next `validateBlock` does not
+panic (stated for one step; iterate with `c10_weakinv_preserved`) -/
+theorem c10_reachable_no_panic {L : Ledger} {b b' : Block} {pid pid' : Id} {msv : Mid} (hw : WeakInv L)
+    (hf : FreshIds L b) (hcov : IdListsCover L b pid) (hv : validateBlock L b pid = .ok msv)
+    {L' : Ledger} {ms : Mid} (ha : applyBlock L b = .ok (L', ms))
+    (hf' : FreshIds L' b') (hcov' : IdListsCover L' b' pid') :
+    ∀ msg, validateBlock L' b' pid' ≠ .error (.panic msg) :=
+  c10_validate_no_panic_legacy (c10_weakinv_preserved hw hf hcov hv L' ms ha) b' pid' hf' hcov'
+
+
+
+/-- a block accepted by validation is applied without panic (`WeakInv` carries `ParamsOk`) -/
+theorem c10_accepted_applies_weak {L : Ledger} (hw : WeakInv L) (b : Block) (pid : Id) (ms : Mid)
+    (hv : validateBlock L b pid = .ok ms) : ∃ r, applyBlock L b = .ok r :=
+  c10_accepted_applies_solvent hw.2.2.1 b pid ms hv
+
+-- ================================================================= the weak invariant in the legacy window: witnesses
+
+theorem pL_weak : WeakInv pL := by decide
+
+theorem pB26_fresh : FreshIds pL pB26 := by
+  refine ⟨by decide, ?_⟩
+  intro p hp k
+  cases k <;> revert p <;> decide
+
+/-- The 26-formation legacy block (inflated ephemeral inputs, `c10_legacy_window_tax_overflow_rejected`) is accepted
+and leads to a ledger that is **not** `Solvent` (26 contracts of almost 2^128 each) but satisfies `WeakInv`:
+`Solvent` is not an invariant of reachable states, `WeakInv` is. -/
+theorem c10_legacy_reaches_insolvent :
+    WeakInv pL ∧ pL.child < pL.P.ephemeralFix ∧ FreshIds pL pB26 ∧ IdListsCover pL pB26 98 ∧
+    (match applyBlock pL pB26 with
+      | .ok (L', _) => decide (¬ Solvent L' ∧ WeakInv L')
+      | .error _ => false) = true :=
+  ⟨pL_weak, by decide, pB26_fresh, ⟨by decide, by decide⟩, by decide⟩
+
+example : ∀ msg, validateBlock pL pB26 98 ≠ .error (.panic msg) :=
+  c10_validate_no_panic_legacy pL_weak pB26 98 pB26_fresh ⟨by decide, by decide⟩
+
+/-! Cross-kind forgery in the legacy window: `xT1` spends an "ephemeral siacoin output" whose claimed id 300 is the id
+of the *siafund* output created by `xT0`. The shared index maps 300 to slot 1 of the siafund diffs; slot 1 of the
+siacoin diffs holds the created output 100, so the legacy check passes and `spendSc` overwrites that diff with the
+forged record (5000 coins conjured, output 100 lost). `Struct`/`Inv` no longer hold for the mid-state, the weak
+invariant does, nothing panics, and the committed ledger satisfies `WeakInv`. -/
+def xT0 : Txn2 :=
+  { scIns := [{ parent := exSc1, addrOk := true, authOk := true }], scOuts := [(100, { value := 1000, addr := 9 })],
+    sfIns := [{ parent := exSf2, claimAddr := 8, claimId := 12, addrOk := true, authOk := true }],
+    sfOuts := [(300, 10000, 8)], fcs := [], revs := [], ress := [], natts := 0, attsOk := true,
+    newFoundation := none, fee := 0, weight := 1 }
+def xT1 : Txn2 :=
+  { scIns := [{ parent := { id := 300, value := 5000, addr := 9, maturity := 0, leaf := none }, addrOk := true, authOk := true }],
+    scOuts := [(101, { value := 5000, addr := 9 })], sfIns := [], sfOuts := [], fcs := [], revs := [], ress := [],
+    natts := 0, attsOk := true, newFoundation := none, fee := 0, weight := 1 }
+def xB : Block :=
+  { txns1 := [], v2 := some (5, true, [xT0, xT1]), payouts := [(30, { value := 30, addr := 9 })],
+    foundationOutId := 31, expiring := [], headerOk := true, blockId := 99, maxWeight := 100 }
+
+theorem xB_fresh : FreshIds pL xB := by
+  refine ⟨by decide, ?_⟩
+  intro p hp k
+  cases k <;> revert p <;> decide
+
+theorem c10_legacy_cross_kind_forgery :
+    (match validateBlock pL xB 98 with
+      | .ok ms => decide (ms.lookup 100 = some 1 ∧ (ms.sces.getD 1 default).e.id = 300 ∧ (ms.sces.getD 1 default).e.value = 5000)
+      | .error _ => false) = true ∧
+    (match applyBlock pL xB with
+      | .ok (L', _) => decide (WeakInv L' ∧ V L' = V pL + 30 + 4000)
+      | .error _ => false) = true := by
+  constructor <;> decide
+
+example : ∀ msg, validateBlock pL xB 98 ≠ .error (.panic msg) :=
+  c10_validate_no_panic_legacy pL_weak xB 98 xB_fresh ⟨by decide, by decide⟩
+
+example : ∀ L' ms, applyBlock pL xB = .ok (L', ms) → WeakInv L' := by
+  have hv : ∃ ms, validateBlock pL xB 98 = .ok ms := exists_ok_of_isOk (by decide)
+  obtain ⟨ms, hv⟩ := hv
+  exact c10_weakinv_preserved pL_weak xB_fresh ⟨by decide, by decide⟩ hv
 
 end C10
